@@ -184,7 +184,8 @@ Inductive op :=
 | OwnerReturn                (* run: owner.return_connection(connection) for a dead connection: in_flight -= 1 *)
 | SetKsLock                  (* set_keyspace_async: lock region *)
 | SetKsGetId                 (* set_keyspace_async: get_request_id under the lock *)
-| SetWritable (b : bool).    (* libev reactor only: write buffer watermark *)
+| SetWritable (b : bool)     (* libev reactor only: write buffer watermark *)
+| RecvPush.                  (* process_msg for a server-pushed EVENT frame (stream < 0): msg_received; handle_pushed *)
 
 Definition step (s : state) (o : op) : state :=
   match o with
@@ -372,6 +373,7 @@ Definition step (s : state) (o : op) : state :=
       end
     else s
   | SetWritable b => set_flags (defunct s) (closed s) b (msg_received s) s
+  | RecvPush => set_flags (defunct s) (closed s) (writable s) true s
   end.
 
 Definition run (s : state) (ops : list op) : state := fold_left step ops s.
